@@ -110,9 +110,9 @@ RELATED = {
 
 # Properties with schedule/fault content for which no check is claimed (yet), with the reason.
 UNCLAIMED = {
-    "C21": "bulk metadata operations: component simulation not built",
-    "C26": "free-list histories have no schedule or fault content; component simulation not built",
-    "C27": "grow_freelist under mmap faults: component simulation not built",
+    "C21": "bulk zero/set/copy quantify over inputs only: one call has no schedule, clock, fault or sharing in it (pure function of the metadata bytes and the range); not a simulation target",
+    "C26": "a sequential free-list data structure with no time, I/O or sharing: an operation history against a reference model without schedule or fault is model-based input generation, not simulation",
+    "C27": "the only fault it could meet, a failing mmap while growing, is an assert by design; what remains is a function of (units, grain, block size, growth steps): input generation, not simulation (see DESIGN.md 10.3)",
 }
 
 
